@@ -255,6 +255,20 @@ def evaluate(inp):
             if set(g2.nodes if g2 is not None else ()) != own:
                 return bad('history:coarse-node-carries-stale-atoms', sorted(own),
                            {'string': s1, 'first_library': lib_def, 'coarse': k, 'carries': sorted(g2.nodes) if g2 is not None else None})
+        # ... and once more after the caller turned one zero-order edge of a virtual node into a real bond: the
+        # node is no longer virtual and has to be rejected
+        vk = [k for k in sorted(g.nodes) if g.nodes[k]['fragname'] in vnames and g.degree(k) > 0]
+        if vk:
+            nb = sorted(g[vk[0]])[0]
+            g.edges[vk[0], nb]['order'] = 1
+            try:
+                MoleculeResolver.from_graph(lib_virt, g, last_all_atom=inp['all_atom']).resolve_all()
+            except SyntaxError:
+                pass
+            except Exception as e:
+                return bad('history:wrong-exception-after-edge-became-real:' + type(e).__name__, 'SyntaxError', {'string': s1, 'error': repr(e)[:150]})
+            else:
+                return bad('history:fragment-less-node-accepted-after-edge-became-real', 'SyntaxError', {'string': s1, 'edge': [vk[0], nb]})
     return Verdict(outcome='%d/%d/%s' % (len(c1), len(f1), len(deco)))
 
 
